@@ -34,6 +34,41 @@ fn quote_free(s: &str) -> bool {
     !s.contains('"')
 }
 
+/// the normal-form clause's domain: double quotes occur only as balanced delimiters inside labels — never inside a
+/// comment or a branch length, and every quoted section is closed before the text ends
+fn quotes_only_delimit_labels(s: &str) -> bool {
+    #[derive(PartialEq)]
+    enum F { Name, Len, Comment }
+    let (mut f, mut inq) = (F::Name, false);
+    for c in s.chars() {
+        if inq {
+            if c == '"' {
+                inq = false;
+            }
+            continue;
+        }
+        match f {
+            F::Comment => {
+                if c == '"' { return false; }
+                if c == ']' { f = F::Name; }
+            }
+            _ => match c {
+                '"' => {
+                    if f != F::Name { return false; }
+                    inq = true;
+                }
+                '[' => f = F::Comment,
+                ':' => f = F::Len,
+                // an opening parenthesis does not end a branch-length field in this parser (`:("…` keeps reading a length)
+                ',' | ')' => f = F::Name,
+                ';' => return true,
+                _ => {}
+            },
+        }
+    }
+    !inq
+}
+
 /// oracle for the rejection clause, on texts without quotes and comments: a terminating `;` must exist and
 /// the parentheses before it must be balanced and never close more than were opened
 fn must_reject(s: &str) -> Option<&'static str> {
@@ -88,7 +123,7 @@ fn oracles(text: &str, ans: &str, tree: &Option<Tree>, rep: &mut Report) {
         return;
     }
     // normal form: the written form parses back to an equal tree and is written identically again
-    if quote_free(text) {
+    if quote_free(text) || quotes_only_delimit_labels(text) {
         let t2 = tree.clone();
         let r = guarded(move || {
             let w1 = t2.to_newick().map_err(|e| format!("to_newick: {e:?}"))?;
@@ -201,7 +236,7 @@ pub fn mutate(rng: &mut Rng, s: &str) -> String {
                 v.truncate(i);
             }
             _ => {
-                let toks = ['(', ')', ',', ';', ':'];
+                let toks = ['(', ')', ',', ';', ':', '\\', '"', ' ', '['];
                 v[i] = *rng.pick(&toks);
             }
         }
@@ -216,7 +251,7 @@ fn random_unicode(rng: &mut Rng, len: usize) -> String {
         match rng.below(10) {
             0..=3 => s.push(*rng.pick(&ALPHABET)),
             4 => s.push(*rng.pick(&ws)),
-            5 => s.push(*rng.pick(&['.', '-', '+', 'e', 'E', 'i', 'n', 'f', 'N', 'a', '0', '9'])),
+            5 => s.push(*rng.pick(&['.', '-', '+', 'e', 'E', 'i', 'n', 'f', 'N', 'a', '0', '9', '\\'])),
             _ => loop {
                 if let Some(c) = char::from_u32((rng.next() % 0x110000) as u32) {
                     s.push(c);
@@ -228,7 +263,13 @@ fn random_unicode(rng: &mut Rng, len: usize) -> String {
     s
 }
 
+/// labels under stress: everything that interacts with the quote / comment state, including the backslash (an ordinary
+/// character: the format has no escapes)
+pub const QUOTE4: [char; 4] = ['a', '\\', '"', ' '];
+pub const QUOTE6: [char; 6] = ['a', '\\', '"', ' ', '[', ']'];
+
 enum Job {
+    QuoteStress { len: usize, six: bool, from: u64, to: u64 },
     Texts(Vec<String>, &'static str),
     Exhaustive { len: usize, from: u64, to: u64 },
     Lexemes { len: usize },
@@ -241,6 +282,18 @@ fn do_job(job: Job, driver: &str, rep: &mut Report) {
         Job::Texts(t, stream) => {
             rep.count_n("corpus", t.len() as u64);
             compare_chunk(&t, driver, rep, stream, true)
+        }
+        Job::QuoteStress { len, six, from, to } => {
+            // `<s>;` (a one-node tree whose label is s) and `(<s>:1,b);`
+            let alpha: &[char] = if six { &QUOTE6 } else { &QUOTE4 };
+            let mut chunk: Vec<String> = Vec::with_capacity(2 * (to - from) as usize);
+            for k in from..to {
+                let s = nth_string(k, len, alpha);
+                chunk.push(format!("{s};"));
+                chunk.push(format!("({s}:1,b);"));
+            }
+            rep.count_n(&format!("quote_stress_{}_len_{len}", alpha.len()), 2 * (to - from));
+            compare_chunk(&chunk, driver, rep, "c02.quotes", true);
         }
         Job::Exhaustive { len, from, to } => {
             let chunk: Vec<String> = (from..to).map(|k| nth_string(k, len, &ALPHABET)).collect();
@@ -313,6 +366,21 @@ pub fn run(thorough: bool, seed: u64, driver: &str, rep: &mut Report) {
     }
     rep.notes.push(format!("all strings of length <= {max_len} over the 11-symbol token alphabet were enumerated"));
     rep.exhaustive = false; // the exhaustive stream is complete for its bound; the other streams are samples
+    // --- labels under stress: all strings over {a \ " space} and over {a \ " space [ ]} as the label of a node ---
+    let (l4, l6) = if thorough { (11, 9) } else { (9, 7) };
+    for (six, maxl) in [(false, l4), (true, l6)] {
+        let base: u64 = if six { 6 } else { 4 };
+        for len in 0..=maxl {
+            let total = base.pow(len as u32);
+            let mut from = 0;
+            while from < total {
+                let to = (from + 50_000).min(total);
+                jobs.push(Job::QuoteStress { len, six, from, to });
+                from = to;
+            }
+        }
+    }
+    rep.notes.push(format!("all labels of length <= {l4} over a, backslash, double quote, blank and of length <= {l6} over those plus [ ] were enumerated inside `<s>;` and `(<s>:1,b);`"));
     // --- float lexemes inside `(a:<lexeme>,b);` ---
     for len in 0..=(if thorough { 6 } else { 4 }) {
         jobs.push(Job::Lexemes { len });
